@@ -83,6 +83,9 @@ func tblFieldKey(v *types.Var, recv types.Type) string {
 func tblPathOf(info *types.Info, e ast.Expr) *tblPath {
 	var parts, fields []string
 	heap := false
+	// the next field selected starts a new memory object (it is reached through a pointer, a slice or
+	// map element, or a call result): its key is marked with a leading '*'
+	pendingInd := false
 	var root types.Object
 	var walk func(e ast.Expr) bool
 	walk = func(e ast.Expr) bool {
@@ -114,7 +117,12 @@ func tblPathOf(info *types.Info, e ast.Expr) *tblPath {
 			}
 			parts = append(parts, "."+x.Sel.Name)
 			if fv, ok := sel.Obj().(*types.Var); ok {
-				fields = append(fields, tblFieldKey(fv, sel.Recv()))
+				k := tblFieldKey(fv, sel.Recv())
+				if sel.Indirect() || pendingInd {
+					k = "*" + k
+				}
+				pendingInd = false
+				fields = append(fields, k)
 			}
 			return true
 		case *ast.StarExpr:
@@ -122,6 +130,7 @@ func tblPathOf(info *types.Info, e ast.Expr) *tblPath {
 				return false
 			}
 			heap = true
+			pendingInd = true
 			parts = append(parts, ".*")
 			return true
 		case *ast.IndexExpr:
@@ -135,6 +144,7 @@ func tblPathOf(info *types.Info, e ast.Expr) *tblPath {
 			switch types.Unalias(info.TypeOf(x.X)).Underlying().(type) {
 			case *types.Slice, *types.Map, *types.Pointer:
 				heap = true
+				pendingInd = true
 			}
 			parts = append(parts, "["+tv.Value.ExactString()+"]")
 			return true
@@ -164,6 +174,7 @@ func tblPathOf(info *types.Info, e ast.Expr) *tblPath {
 				return false
 			}
 			parts = append(parts, "."+se.Sel.Name+"()")
+			pendingInd = true
 			return true
 		}
 		return false
@@ -306,7 +317,7 @@ func (f *tblFacts) killHeap() {
 func (f *tblFacts) killStore(lhs *tblPath) {
 	lf := map[string]bool{}
 	for _, x := range lhs.Fields {
-		lf[x] = true
+		lf[tblBareField(x)] = true
 	}
 	f.killIf(func(p *tblPath) bool {
 		if p.Root == lhs.Root && (tblHasPrefix(p.Parts, lhs.Parts) || tblHasPrefix(lhs.Parts, p.Parts)) {
@@ -317,7 +328,7 @@ func (f *tblFacts) killStore(lhs *tblPath) {
 				return true
 			}
 			for _, x := range p.Fields {
-				if lf[x] {
+				if lf[tblBareField(x)] {
 					return true
 				}
 			}
@@ -325,6 +336,8 @@ func (f *tblFacts) killStore(lhs *tblPath) {
 		return false
 	})
 }
+
+func tblBareField(x string) string { return strings.TrimPrefix(x, "*") }
 
 // get returns what is known about p, using the recorded equalities
 // (transitively): the intersection of the sets of every path equal to p.
@@ -397,12 +410,16 @@ type tblGuard struct {
 	aliases map[types.Object]ast.Expr // single-assignment locals `k := <path>`
 	// single-assignment boolean locals `b := <condition>`
 	condAlias map[types.Object]ast.Expr
+	// every single-definition, never-reassigned local → its defining expression (pure path or not)
+	singleDef map[types.Object]ast.Expr
 	// single-assignment locals bound to a call result: `…, ok := f(args)` / `err := f(args)`
 	resCalls map[types.Object]tblResCall
 	written  map[types.Object]int
 	// locals whose address is taken or that a function literal assigns: any call or store through a
 	// pointer may change them
 	escaping map[types.Object]bool
+	// locals on which a pointer-receiver method is called (implicit address-of); computed lazily
+	ptrRecv map[types.Object]bool
 }
 
 type tblResCall struct {
@@ -422,6 +439,9 @@ type tblRun struct {
 	cur    *tblFacts                        // facts in force where a condition is evaluated
 	depth  int
 	dead   bool // the target is unreachable under the known constants
+	// never-reassigned locals assumed "nil" / "true" for this evaluation: what is asked is what
+	// holds at a `return v` when the caller then sees v == nil (resp. v true)
+	assume map[types.Object]string
 }
 
 func (m *tblModel) guardFor(f *tblFn) *tblGuard {
@@ -466,6 +486,25 @@ func (m *tblModel) guardFor(f *tblFn) *tblGuard {
 					}
 				} else if o := g.info.Uses[id]; o != nil {
 					written[o]++
+				}
+			}
+		case *ast.ValueSpec:
+			// `var k = x.Kind()` is `k := x.Kind()`
+			if _, isFile := g.parents[g.parents[x]].(*ast.DeclStmt); isFile && len(x.Names) == len(x.Values) {
+				for i, nm := range x.Names {
+					if o := g.info.Defs[nm]; o != nil {
+						defs[o]++
+						rhs[o] = x.Values[i]
+						if call, ok := ast.Unparen(x.Values[i]).(*ast.CallExpr); ok {
+							multi[o] = tblResCall{Call: call, Idx: 0, Stmt: g.parents[g.parents[x]].(*ast.DeclStmt)}
+						}
+					}
+				}
+			} else if _, isLocal := g.parents[g.parents[x]].(*ast.DeclStmt); isLocal {
+				for _, nm := range x.Names {
+					if o := g.info.Defs[nm]; o != nil {
+						defs[o] += 2 // declared without (or with a tuple) initialiser: assigned elsewhere
+					}
 				}
 			}
 		case *ast.IncDecStmt:
@@ -540,9 +579,13 @@ func (m *tblModel) guardFor(f *tblFn) *tblGuard {
 		b, ok := types.Unalias(o.Type()).Underlying().(*types.Basic)
 		return ok && b.Kind() == types.Bool
 	}
+	g.singleDef = map[types.Object]ast.Expr{}
 	for o, n := range defs {
 		if n != 1 || written[o] > 0 {
 			continue
+		}
+		if rhs[o] != nil {
+			g.singleDef[o] = rhs[o]
 		}
 		if rc, ok := multi[o]; ok {
 			g.resCalls[o] = rc
@@ -612,6 +655,25 @@ func tblRootObj(info *types.Info, e ast.Expr) types.Object {
 	}
 }
 
+// defOf looks through single-definition, never-reassigned locals: the
+// expression whose value the identifier holds (for questions that depend on
+// how the value was obtained - its static source - not on whether the source
+// still has that value).
+func (g *tblGuard) defOf(e ast.Expr) ast.Expr {
+	for i := 0; i < 4; i++ {
+		id, ok := ast.Unparen(e).(*ast.Ident)
+		if !ok {
+			break
+		}
+		init := g.singleDef[g.info.Uses[id]]
+		if init == nil {
+			break
+		}
+		e = init
+	}
+	return ast.Unparen(e)
+}
+
 // pathOf resolves an expression to a path, looking through single-definition
 // aliases (`kind := x.Kind()`).
 func (g *tblGuard) pathOf(e ast.Expr) *tblPath {
@@ -645,6 +707,9 @@ func (r *tblRun) evalConst(e ast.Expr) (val bool, known bool) {
 			if v, ok := r.consts[o]; ok && v.Kind() == constant.Bool {
 				return constant.BoolVal(v), true
 			}
+			if r.assume[o] == "true" {
+				return true, true
+			}
 		}
 	case *ast.UnaryExpr:
 		if x.Op == token.NOT {
@@ -677,6 +742,13 @@ func (r *tblRun) evalConst(e ast.Expr) (val bool, known bool) {
 				eq := constant.Compare(va, token.EQL, vb)
 				return eq == (x.Op == token.EQL), true
 			}
+			if len(r.assume) > 0 {
+				for _, pr := range [][2]ast.Expr{{x.X, x.Y}, {x.Y, x.X}} {
+					if id, ok := ast.Unparen(pr[0]).(*ast.Ident); ok && tblIsNil(r.g.info, pr[1]) && r.assume[r.g.info.Uses[id]] == "nil" {
+						return x.Op == token.EQL, true
+					}
+				}
+			}
 		}
 	}
 	return false, false
@@ -695,6 +767,25 @@ func (r *tblRun) constOf(e ast.Expr) constant.Value {
 		}
 	}
 	return nil
+}
+
+// memberSet: e is a variadic parameter (never reassigned in the function) whose
+// constant elements are known at this call: the set of those constants.
+func (r *tblRun) memberSet(e ast.Expr) map[string]bool {
+	id, ok := ast.Unparen(e).(*ast.Ident)
+	if !ok {
+		return nil
+	}
+	o := r.g.info.Uses[id]
+	es, ok := r.elems[o]
+	if !ok || r.g.written[o] > 0 {
+		return nil
+	}
+	set := map[string]bool{}
+	for _, k := range es {
+		set[k.Val().ExactString()] = true
+	}
+	return set
 }
 
 func tblIsNil(info *types.Info, e ast.Expr) bool {
@@ -724,6 +815,18 @@ func (r *tblRun) condFacts(cond ast.Expr, truth bool) *tblFacts {
 		}
 	case *ast.CallExpr:
 		if truth {
+			// slices.Contains(vs, path) with vs a variadic parameter whose elements are known at this call
+			if fn := CalleeOf(g.info, x); fn != nil && fn.Pkg() != nil && fn.Pkg().Path() == "slices" && fn.Name() == "Contains" && len(x.Args) == 2 {
+				if set := r.memberSet(x.Args[0]); set != nil {
+					if p := g.pathOf(x.Args[1]); p != nil {
+						if en := g.m.enumOf(g.info.TypeOf(x.Args[1])); en != nil {
+							out.restrict(&tblFact{Path: p, Enum: en, Allowed: set,
+								Why: fmt.Sprintf("%s is one of the values passed for %s (%s)", exprStr(x.Args[1]), exprStr(x.Args[0]), g.m.c.Pos(cond.Pos()))})
+						}
+					}
+				}
+				return out
+			}
 			return r.successFacts(x, 0, "true")
 		}
 	case *ast.UnaryExpr:
@@ -778,6 +881,18 @@ func (r *tblRun) condFacts(cond ast.Expr, truth bool) *tblFacts {
 									if en := g.m.enumOf(g.info.TypeOf(pr[0])); en != nil {
 										out.restrict(&tblFact{Path: p, Enum: en, Allowed: set,
 											Why: fmt.Sprintf("%s == one of the values passed for %s (%s)", exprStr(pr[0]), id.Name, g.m.c.Pos(cond.Pos()))})
+										return out
+									}
+								}
+							}
+						}
+						// path == vs[i]: any element of the variadic parameter
+						if ix, ok := ast.Unparen(pr[1]).(*ast.IndexExpr); ok {
+							if set := r.memberSet(ix.X); set != nil {
+								if p := g.pathOf(pr[0]); p != nil {
+									if en := g.m.enumOf(g.info.TypeOf(pr[0])); en != nil {
+										out.restrict(&tblFact{Path: p, Enum: en, Allowed: set,
+											Why: fmt.Sprintf("%s == one of the values passed for %s (%s)", exprStr(pr[0]), exprStr(ix.X), g.m.c.Pos(cond.Pos()))})
 										return out
 									}
 								}
@@ -1098,11 +1213,91 @@ func (g *tblGuard) kills(f *tblFacts, n ast.Node) {
 				g.callKills(f, x)
 				g.killEscaping(f)
 			}
-		case *ast.GoStmt, *ast.DeferStmt:
+		case *ast.GoStmt:
 			f.killHeap()
+		case *ast.DeferStmt:
+			// the deferred call runs when the function returns; counting it as run here (its CallExpr is
+			// visited next) over-approximates what later points of the body can observe. What the caller
+			// observes after the return is handled where return facts are computed (successFacts).
+			if _, isLit := ast.Unparen(x.Call.Fun).(*ast.FuncLit); isLit {
+				f.killHeap()
+			}
 		}
 		return true
 	})
+}
+
+// immutablePath: the path denotes the same value for the whole activation once
+// its root is bound: the root is a local variable or parameter that is never
+// assigned again, never has a part assigned, never has its address taken (also
+// implicitly, by a pointer-receiver method call), and the path does not pass
+// through a pointer, slice or map.
+func (g *tblGuard) immutablePath(p *tblPath) bool {
+	if p.Heap || g.written[p.Root] > 0 || g.escaping[p.Root] {
+		return false
+	}
+	v, ok := p.Root.(*types.Var)
+	if !ok || v.IsField() || v.Pkg() == nil || v.Parent() == nil || v.Parent() == v.Pkg().Scope() {
+		return false
+	}
+	if g.ptrRecv == nil {
+		g.ptrRecv = map[types.Object]bool{}
+		ast.Inspect(g.body, func(n ast.Node) bool {
+			// loop variables are rebound on every iteration (one variable per loop before Go 1.22)
+			switch x := n.(type) {
+			case *ast.RangeStmt:
+				for _, e := range []ast.Expr{x.Key, x.Value} {
+					if id, ok := e.(*ast.Ident); ok && g.info.Defs[id] != nil {
+						g.ptrRecv[g.info.Defs[id]] = true
+					}
+				}
+			case *ast.ForStmt:
+				if as, ok := x.Init.(*ast.AssignStmt); ok {
+					for _, l := range as.Lhs {
+						if id, ok := l.(*ast.Ident); ok && g.info.Defs[id] != nil {
+							g.ptrRecv[g.info.Defs[id]] = true
+						}
+					}
+				}
+			}
+			call, ok := n.(*ast.CallExpr)
+			if !ok {
+				return true
+			}
+			se, ok := ast.Unparen(call.Fun).(*ast.SelectorExpr)
+			if !ok {
+				return true
+			}
+			if sel := g.info.Selections[se]; sel != nil && sel.Kind() == types.MethodVal {
+				if sig, ok := sel.Obj().Type().(*types.Signature); ok && sig.Recv() != nil {
+					if _, isPtr := types.Unalias(sig.Recv().Type()).(*types.Pointer); isPtr {
+						if _, recvIsPtr := types.Unalias(g.info.TypeOf(se.X)).Underlying().(*types.Pointer); !recvIsPtr {
+							if r := tblRootObj(g.info, se.X); r != nil {
+								g.ptrRecv[r] = true
+							}
+						}
+					}
+				}
+			}
+			return true
+		})
+	}
+	return !g.ptrRecv[p.Root]
+}
+
+// deferred: the defer statements of the function (outside closures).
+func (g *tblGuard) deferred() []*ast.DeferStmt {
+	var out []*ast.DeferStmt
+	ast.Inspect(g.body, func(n ast.Node) bool {
+		switch x := n.(type) {
+		case *ast.FuncLit:
+			return false
+		case *ast.DeferStmt:
+			out = append(out, x)
+		}
+		return true
+	})
+	return out
 }
 
 func (g *tblGuard) killEscaping(f *tblFacts) {
@@ -1171,19 +1366,150 @@ func (g *tblGuard) callKills(f *tblFacts, call *ast.CallExpr) {
 		if len(p.Fields) == 0 {
 			return true // *ptr, global, slice element: no field to reason about
 		}
-		for _, x := range p.Fields {
-			if ws[x] {
+		return g.m.mayWrite(ws, p.Fields)
+	})
+}
+
+// mayWrite: can one of the recorded writes change a location the path reads?
+// The path's fields fall into segments, one per memory object it passes
+// through (a field key with a leading '*' starts a new object). A write
+// record is the chain of fields, outermost first, between the pointer the
+// store goes through and the stored location. Record and segment can denote
+// overlapping memory only if, laid over each other from the start of an
+// object, one is a prefix of the other. The write's pointer may also point
+// into the middle of the segment's object (at the sub-object held by field
+// s_j) - but such a pointer exists only if the address of s_j is taken
+// somewhere in the module and leaves the expression it is taken in
+// (m.addrEscaped; pointer-receiver method calls on the field count). The
+// reverse case (the segment's own base pointing into the middle of the written
+// object) is covered where the record is made: the suffixes of the chain
+// below an address-escaped field are recorded too.
+func (m *tblModel) mayWrite(ws map[string]bool, fields []string) bool {
+	esc := m.addrEscaped()
+	var seg []string
+	check := func(seg []string) bool {
+		for j := 0; j < len(seg); j++ {
+			if j > 0 && esc[seg[j-1]] == "" {
+				continue
+			}
+			view := seg[j:]
+			// whole-object store through a pointer to the struct that owns view[0]
+			if i := strings.LastIndex(view[0], "."); i > 0 && ws["W:"+view[0][:i]] {
 				return true
 			}
-			if i := strings.LastIndex(x, "."); i > 0 && ws[x[:i]+".*"] {
+			// a recorded chain is a prefix of the view
+			for i := 1; i <= len(view); i++ {
+				if ws["C:"+strings.Join(view[:i], ">")] {
+					return true
+				}
+			}
+			// the view is a proper prefix of a recorded chain
+			if ws["P:"+strings.Join(view, ">")] {
+				return true
+			}
+		}
+		// a store through a plain pointer to a non-struct value: it may point at any field of that
+		// type whose address escapes
+		for _, x := range seg {
+			if t := esc[x]; t != "" && ws["R:"+t] {
 				return true
 			}
 		}
 		return false
-	})
+	}
+	for i, x := range fields {
+		if strings.HasPrefix(x, "*") && i > 0 {
+			if check(seg) {
+				return true
+			}
+			seg = nil
+		}
+		seg = append(seg, tblBareField(x))
+	}
+	return check(seg)
 }
 
-// callWrites: the struct fields ("pkg.T.F") the call may write, transitively.
+// addrEscaped: the struct fields ("pkg.T.F" → type of the field) whose address
+// is taken and used for anything but a load, a store into it, or a further
+// field/element selection, anywhere in the module.
+func (m *tblModel) addrEscaped() map[string]string {
+	m.escOnce.Do(func() {
+		m.addrEsc = map[string]string{}
+		m.c.SSA()
+		seen := map[*ssa.Function]bool{}
+		var visit func(fn *ssa.Function)
+		visit = func(fn *ssa.Function) {
+			if fn == nil || seen[fn] {
+				return
+			}
+			seen[fn] = true
+			for _, b := range fn.Blocks {
+				for _, ins := range b.Instrs {
+					fa, ok := ins.(*ssa.FieldAddr)
+					if !ok || fa.Referrers() == nil {
+						continue
+					}
+					for _, ref := range *fa.Referrers() {
+						esc := true
+						switch rr := ref.(type) {
+						case *ssa.UnOp:
+							esc = rr.Op != token.MUL
+						case *ssa.FieldAddr, *ssa.IndexAddr, *ssa.DebugRef:
+							esc = false
+						case *ssa.Store:
+							esc = rr.Val == ssa.Value(fa)
+						}
+						if esc {
+							if k, t := tblSSAFieldKey(fa); k != "" {
+								m.addrEsc[k] = t
+							}
+						}
+					}
+				}
+			}
+			for _, an := range fn.AnonFuncs {
+				visit(an)
+			}
+		}
+		for _, sp := range m.c.SSAPkgs {
+			if sp == nil || !strings.HasPrefix(sp.Pkg.Path(), ModPath) {
+				continue
+			}
+			for _, mem := range sp.Members {
+				switch x := mem.(type) {
+				case *ssa.Function:
+					visit(x)
+				case *ssa.Type:
+					for _, recv := range []types.Type{x.Type(), types.NewPointer(x.Type())} {
+						ms := m.c.Prog.MethodSets.MethodSet(recv)
+						for i := 0; i < ms.Len(); i++ {
+							if f := m.c.Prog.MethodValue(ms.At(i)); f != nil {
+								visit(f)
+							}
+						}
+					}
+				}
+			}
+		}
+	})
+	return m.addrEsc
+}
+
+// tblSSAFieldKey: "pkg.T.F" of the field a FieldAddr selects, and the field's type.
+func tblSSAFieldKey(fa *ssa.FieldAddr) (string, string) {
+	pt, ok := types.Unalias(fa.X.Type()).Underlying().(*types.Pointer)
+	if !ok {
+		return "", ""
+	}
+	st, ok := types.Unalias(pt.Elem()).Underlying().(*types.Struct)
+	if !ok {
+		return "", ""
+	}
+	f := st.Field(fa.Field)
+	return tblFieldKey(f, pt.Elem()), types.TypeString(f.Type(), nil)
+}
+
+// callWrites: the write records (see direct) of everything the call may run.
 // known=false when the callee is not a statically resolved function, or a
 // non-module function receives something through which module state could be
 // written.
@@ -1304,7 +1630,14 @@ type tblWrites struct {
 	known bool
 }
 
-// direct: fields written (or whose address escapes) in one SSA function.
+// direct: the write records of one SSA function (see mayWrite):
+//
+//	"C:a>b>c"  a store to (or an escaping address of) the location base.a.b.c, base being a pointer
+//	           that is not a non-escaping local of the function; "P:…" are the proper prefixes of the
+//	           recorded chains
+//	"W:pkg.T"  the whole struct T (and every struct nested in it by value) is overwritten through a
+//	           pointer to it
+//	"R:type"   a store through a plain pointer to a non-struct value of that type
 func (m *tblModel) direct(f *ssa.Function) map[string]bool {
 	tblModelMu.Lock()
 	if w, ok := m.directWrites[f]; ok {
@@ -1312,64 +1645,117 @@ func (m *tblModel) direct(f *ssa.Function) map[string]bool {
 		return w
 	}
 	tblModelMu.Unlock()
+	esc := m.addrEscaped()
 	out := map[string]bool{}
-	fieldKey := func(fa *ssa.FieldAddr) string {
-		pt, ok := types.Unalias(fa.X.Type()).Underlying().(*types.Pointer)
-		if !ok {
-			return ""
-		}
-		st, ok := types.Unalias(pt.Elem()).Underlying().(*types.Struct)
-		if !ok {
-			return ""
-		}
-		return tblFieldKey(st.Field(fa.Field), pt.Elem())
-	}
-	// chain: every field on the address chain leading to v
-	var chain func(v ssa.Value, acc []string, depth int) []string
-	chain = func(v ssa.Value, acc []string, depth int) []string {
+	// chain: the fields on the address chain leading to v, outermost first; local=true when the chain
+	// starts at a non-escaping local (no pre-existing object is written)
+	var chain func(v ssa.Value, depth int) (fields []string, local bool)
+	chain = func(v ssa.Value, depth int) ([]string, bool) {
 		if depth > 8 {
-			return acc
+			return nil, false
 		}
 		switch x := v.(type) {
 		case *ssa.FieldAddr:
-			if k := fieldKey(x); k != "" {
+			acc, local := chain(x.X, depth+1)
+			if local {
+				return nil, true
+			}
+			if k, _ := tblSSAFieldKey(x); k != "" {
 				acc = append(acc, k)
 			}
-			return chain(x.X, acc, depth+1)
+			return acc, false
 		case *ssa.IndexAddr:
-			return chain(x.X, acc, depth+1)
+			// an element of an array held by value continues the chain; a slice element starts anew
+			if _, isPtr := types.Unalias(x.X.Type()).Underlying().(*types.Pointer); isPtr {
+				return chain(x.X, depth+1)
+			}
+			return nil, false
 		case *ssa.Alloc:
-			if !x.Heap {
-				return nil // a non-escaping local: no pre-existing object is written
+			return nil, !x.Heap
+		}
+		return nil, false
+	}
+	var whole func(t types.Type, depth int)
+	whole = func(t types.Type, depth int) {
+		if depth > 4 {
+			return
+		}
+		t = types.Unalias(t)
+		if nt, ok := t.(*types.Named); ok && nt.Obj().Pkg() != nil {
+			if _, isS := nt.Underlying().(*types.Struct); isS {
+				out["W:"+nt.Obj().Pkg().Path()+"."+nt.Obj().Name()] = true
 			}
 		}
-		return acc
-	}
-	written := func(v ssa.Value) {
-		for _, k := range chain(v, nil, 0) {
-			out[k] = true
+		switch u := t.Underlying().(type) {
+		case *types.Struct:
+			for i := 0; i < u.NumFields(); i++ {
+				whole(u.Field(i).Type(), depth+1)
+			}
+		case *types.Array:
+			whole(u.Elem(), depth+1)
 		}
+	}
+	record := func(fields []string, elem types.Type) {
+		add := func(fs []string) {
+			out["C:"+strings.Join(fs, ">")] = true
+			for i := 1; i < len(fs); i++ {
+				out["P:"+strings.Join(fs[:i], ">")] = true
+			}
+		}
+		if len(fields) == 0 {
+			// through a plain pointer
+			if elem != nil {
+				if _, isS := types.Unalias(elem).Underlying().(*types.Struct); isS {
+					whole(elem, 0)
+				} else if _, isA := types.Unalias(elem).Underlying().(*types.Array); isA {
+					whole(elem, 0)
+				} else {
+					out["R:"+types.TypeString(elem, nil)] = true
+				}
+			}
+			return
+		}
+		add(fields)
+		// somebody else's pointer may denote the sub-object below an address-escaped field of the chain
+		for i := 1; i <= len(fields); i++ {
+			if esc[fields[i-1]] == "" {
+				continue
+			}
+			if i < len(fields) {
+				add(fields[i:])
+			} else if elem != nil {
+				whole(elem, 0)
+				if _, isS := types.Unalias(elem).Underlying().(*types.Struct); !isS {
+					out["R:"+types.TypeString(elem, nil)] = true
+				}
+			}
+		}
+	}
+	written := func(addr ssa.Value) {
+		fields, local := chain(addr, 0)
+		if local {
+			return
+		}
+		var elem types.Type
+		if pt, ok := types.Unalias(addr.Type()).Underlying().(*types.Pointer); ok {
+			elem = pt.Elem()
+		}
+		record(fields, elem)
 	}
 	for _, b := range f.Blocks {
 		for _, ins := range b.Instrs {
 			switch x := ins.(type) {
 			case *ssa.Store:
 				written(x.Addr)
-				// overwriting a whole struct writes all of its fields
-				if pt, ok := types.Unalias(x.Addr.Type()).Underlying().(*types.Pointer); ok {
-					if nt, ok := types.Unalias(pt.Elem()).(*types.Named); ok {
-						if _, isS := nt.Underlying().(*types.Struct); isS && nt.Obj().Pkg() != nil {
-							out[nt.Obj().Pkg().Path()+"."+nt.Obj().Name()+".*"] = true
-						}
-					}
-				}
 			case *ssa.MapUpdate:
 				// map element store: the map itself may be a field value, writing through it
 				if u, ok := x.Map.(*ssa.UnOp); ok && u.Op == token.MUL {
-					written(u.X)
+					if fields, local := chain(u.X, 0); !local && len(fields) > 0 {
+						record(fields, nil)
+					}
 				}
 			case *ssa.FieldAddr:
-				// address escapes (call argument, stored, captured, returned)?
+				// address escapes (call argument, stored, captured, returned): whoever gets it may write
 				if x.Referrers() == nil {
 					continue
 				}
@@ -1391,6 +1777,26 @@ func (m *tblModel) direct(f *ssa.Function) map[string]bool {
 	m.directWrites[f] = out
 	tblModelMu.Unlock()
 	return out
+}
+
+// tblLocalSlot: the address denotes (a part of) a non-escaping local variable
+// of the function being scanned.
+func tblLocalSlot(v ssa.Value, depth int) bool {
+	if depth > 8 {
+		return false
+	}
+	switch x := v.(type) {
+	case *ssa.Alloc:
+		return !x.Heap
+	case *ssa.FieldAddr:
+		return tblLocalSlot(x.X, depth+1)
+	case *ssa.IndexAddr:
+		// only an array held in a local slot; a slice element lives elsewhere
+		if _, isPtr := types.Unalias(x.X.Type()).Underlying().(*types.Pointer); isPtr {
+			return tblLocalSlot(x.X, depth+1)
+		}
+	}
+	return false
 }
 
 func tblNilNode(n ast.Node) bool {
@@ -1442,6 +1848,29 @@ func (r *tblRun) transferStmt(facts *tblFacts, s ast.Stmt) {
 		r.initStmt(facts, x.Init)
 		g.kills(facts, x.Cond)
 		cv, ck := r.evalConst(x.Cond)
+		if ck {
+			// the branch taken is known (constant argument / assumption about a returned local): it ran as
+			// a plain sequence
+			var taken []ast.Stmt
+			if cv {
+				taken = x.Body.List
+			} else if x.Else != nil {
+				taken = []ast.Stmt{x.Else}
+				if eb, ok := x.Else.(*ast.BlockStmt); ok {
+					taken = eb.List
+				}
+			}
+			r.cur = facts
+			facts.and(r.condFacts(x.Cond, cv))
+			if len(taken) > 0 && g.m.tblTerminates(g.info, taken) {
+				r.dead = true // control cannot come past this statement under the assumption
+				return
+			}
+			for _, st := range taken {
+				r.transferStmt(facts, st)
+			}
+			return
+		}
 		if !(ck && !cv) && !g.m.tblTerminates(g.info, x.Body.List) {
 			g.kills(facts, x.Body)
 		}
@@ -1492,6 +1921,27 @@ func (r *tblRun) transferStmt(facts *tblFacts, s ast.Stmt) {
 				facts.restrict(&tblFact{Path: np, Enum: ft.Enum, Allowed: ft.Allowed, Why: ft.Why + fmt.Sprintf("; copied by %s = %s (%s)", exprStr(x.Lhs[0]), exprStr(x.Rhs[0]), g.m.c.Pos(x.Pos()))})
 			}
 		}
+	case *ast.DeclStmt:
+		// `var k = expr` is `k := expr`
+		if gd, ok := x.Decl.(*ast.GenDecl); ok && gd.Tok == token.VAR {
+			for _, sp := range gd.Specs {
+				vs, ok := sp.(*ast.ValueSpec)
+				if !ok {
+					continue
+				}
+				if len(vs.Values) == 0 || (len(vs.Names) != len(vs.Values) && len(vs.Values) != 1) {
+					g.kills(facts, vs)
+					continue
+				}
+				as := &ast.AssignStmt{Tok: token.DEFINE, TokPos: vs.Pos(), Rhs: vs.Values}
+				for _, nm := range vs.Names {
+					as.Lhs = append(as.Lhs, nm)
+				}
+				r.transferStmt(facts, as)
+			}
+			return
+		}
+		g.kills(facts, s)
 	default:
 		g.kills(facts, s)
 		r.cur = facts
@@ -1523,6 +1973,16 @@ func (r *tblRun) initStmt(facts *tblFacts, init ast.Stmt) {
 // markFresh: the call bound in this statement has just run; its success test
 // may use the pre-call snapshot until the next statement is processed.
 func (r *tblRun) markFresh(s ast.Stmt) {
+	if ds, ok := s.(*ast.DeclStmt); ok {
+		if gd, ok := ds.Decl.(*ast.GenDecl); ok && gd.Tok == token.VAR && len(gd.Specs) == 1 {
+			if vs, ok := gd.Specs[0].(*ast.ValueSpec); ok && len(vs.Values) == 1 {
+				if call, ok := ast.Unparen(vs.Values[0]).(*ast.CallExpr); ok {
+					r.fresh[call] = true
+				}
+			}
+		}
+		return
+	}
 	as, ok := s.(*ast.AssignStmt)
 	if !ok || len(as.Rhs) != 1 {
 		return
@@ -1668,8 +2128,9 @@ func (r *tblRun) factsTo(target ast.Node, init *tblFacts) *tblFacts {
 				}
 			}
 		case *ast.FuncLit:
-			// the closure runs later: nothing established outside is known to hold
-			facts = newTblFacts()
+			// the closure runs later: only what is known about values that cannot change any more still
+			// holds (a path that stays inside a local which is bound once and never modified)
+			facts.killIf(func(p *tblPath) bool { return !g.immutablePath(p) })
 		case *ast.AssignStmt, *ast.ExprStmt, *ast.ReturnStmt, *ast.CallExpr, *ast.CompositeLit, *ast.KeyValueExpr:
 			// evaluation order inside one statement: operands left of the target that are impure calls
 			g.killsLeftOf(facts, parent, child)
@@ -1886,26 +2347,82 @@ func (r *tblRun) successFacts(call *ast.CallExpr, idx int, want string) *tblFact
 		case *ast.FuncLit:
 			return false
 		case *ast.ReturnStmt:
-			if len(x.Results) != sig.Results().Len() {
-				if len(x.Results) == 1 && sig.Results().Len() > 1 {
-					// return g(…) forwarding several results
+			// the returned expression that decides success; `return g(…)` forwards g's results
+			var resExpr ast.Expr
+			switch {
+			case len(x.Results) == sig.Results().Len():
+				resExpr = ast.Unparen(x.Results[idx])
+			case len(x.Results) == 1:
+				resExpr = ast.Unparen(x.Results[0])
+				if _, isCall := resExpr.(*ast.CallExpr); !isCall {
 					unknown = true
-				} else {
-					unknown = true
+					return true
 				}
-				return true
-			}
-			switch g2.resultIs(r2, x, x.Results[idx], want) {
-			case tblNo:
-				return true
-			case tblMaybe:
+			default:
 				unknown = true
 				return true
 			}
-			rr := &tblRun{g: g2, depth: r2.depth, consts: r2.consts, elems: r2.elems}
+			forwarded := len(x.Results) != sig.Results().Len()
+			var assume map[types.Object]string
+			var viaCall *ast.CallExpr
+			var viaCond ast.Expr
+			tri := tblMaybe
+			if !forwarded {
+				tri = g2.resultIs(r2, x, resExpr, want)
+			}
+			switch tri {
+			case tblNo:
+				return true
+			case tblMaybe:
+				switch v := resExpr.(type) {
+				case *ast.Ident:
+					// `return v` with v a local that is defined once: what holds here when v is nil / true
+					vo := g2.info.Uses[v]
+					_, single := g2.singleDef[vo]
+					if !single {
+						_, single = g2.resCalls[vo]
+					}
+					if single && !g2.escaping[vo] {
+						assume = map[types.Object]string{vo: want}
+					}
+				case *ast.CallExpr:
+					// `return g(…)`: what holds when g succeeds in the same sense
+					if fn2 := CalleeOf(g2.info, v); fn2 != nil && g.m.fns[fn2.Origin()] != nil {
+						viaCall = v
+					} else if want == "true" {
+						viaCond = v
+					}
+				case *ast.BinaryExpr, *ast.UnaryExpr:
+					// `return x.Kind() == K && …` (a predicate helper): what the condition implies when true
+					if want == "true" {
+						viaCond = resExpr
+					}
+				}
+			}
+			rr := &tblRun{g: g2, depth: r2.depth, consts: r2.consts, elems: r2.elems, assume: assume}
 			fs := rr.factsTo(x, init2)
 			if rr.dead {
+				return true // not reachable under the constants passed at this call
+			}
+			if tri == tblMaybe && assume == nil && viaCall == nil && viaCond == nil {
+				unknown = true
 				return true
+			}
+			if viaCond != nil {
+				g2.kills(fs, viaCond)
+				rr.cur = fs
+				fs.and(rr.condFacts(viaCond, true))
+			}
+			// deferred calls run after the return value is set and before the caller continues
+			for _, dc := range g2.deferred() {
+				g2.kills(fs, dc)
+			}
+			if viaCall != nil {
+				before := fs.clone()
+				// operands evaluated before the call, then the call itself
+				g2.kills(fs, viaCall)
+				rr.cur = before
+				fs.and(rr.successFacts(viaCall, idx, want))
 			}
 			if acc == nil {
 				acc = fs
